@@ -60,7 +60,7 @@ impl Profile {
 	pub fn cases(&self, tier: Tier) -> u64 {
 		match self {
 			Profile::C01 => tier.pick(400, 6000),
-			Profile::C03 => tier.pick(300, 4000),
+			Profile::C03 => tier.pick(160, 4000),
 			Profile::C04 => tier.pick(400, 6000),
 			Profile::C06 => tier.pick(14, 140),
 			Profile::C07 => tier.pick(400, 6000),
